@@ -317,7 +317,9 @@ bool builderInitial(const json& spec, NifFile& nif, Ctx& ctx) {
 	std::vector<NiNode*> made;
 	for (int i = 0; i < nodes; i++) {
 		NiNode* parent = (!made.empty() && r.chance(0.5)) ? made[r.below(uint32_t(made.size()))] : nullptr;
-		made.push_back(nif.AddNode("Node" + std::to_string(i), randomXform(r), parent));
+		// "dup_nodes": several nodes share a name (legal; name lookups then find the first one)
+		std::string nm = jbool(spec, "dup_nodes", false) ? "Node" + std::to_string(i % 2) : "Node" + std::to_string(i);
+		made.push_back(nif.AddNode(nm, randomXform(r), parent));
 	}
 	if (spec.contains("shapes"))
 		for (auto& s : spec["shapes"]) {
